@@ -35,31 +35,55 @@ if any(sig.parameters[e].default is not None for e in elements):
 
 # probe the publishing path once with distinct plain values: which scheme literal, which identifier root, which
 # query keys (and order) does mk_scopes use for a state written by update_from_sdc_location?
+if tuple(elements) != ('fac', 'bldng', 'flr', 'poc', 'rm', 'bed'):
+    raise SystemExit(f'fail-closed: url_elements {elements} differ from the positions Location/Prov.v assumes')
+dsig = [p_ for p_ in inspect.signature(pm_types.LocationDetail.__init__).parameters if p_ != 'self']
+if dsig != ['poc', 'room', 'bed', 'facility', 'building', 'floor']:
+    raise SystemExit(f'fail-closed: LocationDetail.__init__ parameters {dsig} differ from the constructor order of Prov.detail')
+DETAIL = {'Facility': 0, 'Building': 1, 'Floor': 2, 'PoC': 3, 'Room': 4, 'Bed': 5}   # field -> url_elements position
+
 probe = SdcLocation(**{e: f'v{i}' for i, e in enumerate(elements)})
-st = statecontainers.LocationContextStateContainer(mock.MagicMock(Handle='d', DescriptorVersion=0), 'h')
-st.LocationDetail = None
-st.update_from_sdc_location(probe)
-if len(st.Identification) != 1:
-    raise SystemExit('fail-closed: update_from_sdc_location does not write exactly one Identification')
-ident_root = st.Identification[0].Root
+other = SdcLocation(**{e: f'w{i}' for i, e in enumerate(elements)})
 mdib = mock.MagicMock()
 mdib.data_model.pm_types.ContextAssociation.ASSOCIATED = pm_types.ContextAssociation.ASSOCIATED
 for n in ('Location', 'Operator', 'Ensemble', 'Workflow', 'Means'):
     setattr(mdib.data_model.pm_names, f'{n}ContextDescriptor', f'{n}ContextDescriptor')
 mdib.data_model.pm_names.MdsDescriptor = 'MdsDescriptor'
-mdib.entities.by_node_type.side_effect = lambda nt: ([mock.MagicMock(states={'h': st})]
-                                                     if nt == 'LocationContextDescriptor' else [])
-texts = scopesfactory.mk_scopes(mdib).text
-if len(texts) != 2:
-    raise SystemExit(f'fail-closed: mk_scopes published {len(texts)} scopes for one location state, expected 2')
-pub = texts[0]
-pub_scheme, _, rest = pub.partition(':')
-path, _, query = rest.partition('?')
-want_q = '&'.join(f'{e}=v{i}' for i, e in enumerate(elements))
-if query != want_q:
-    raise SystemExit(f'fail-closed: published query {query!r} is not {want_q!r} (keys/order differ from url_elements)')
-if path != '/' + ident_root + '/' + '%2F'.join(f'v{i}' for i in range(len(elements))):
-    raise SystemExit(f'fail-closed: published path {path!r} has an unexpected shape')
+ident_root = pub_scheme = None
+# every initial condition of the state (Prov.update_from_loc does not depend on it): default LocationDetail,
+# LocationDetail None, filled before, None then filled, identifications present
+for branch in ('fresh', 'none', 'refilled', 'none-refilled', 'idents'):
+    st = statecontainers.LocationContextStateContainer(mock.MagicMock(Handle='d', DescriptorVersion=0), 'h')
+    if branch.startswith('none'):
+        st.LocationDetail = None
+    if branch.endswith('refilled'):
+        st.update_from_sdc_location(other)
+    if branch == 'idents':
+        st.Identification = [pm_types.InstanceIdentifier(root='r1', extension_string='e1'),
+                             pm_types.InstanceIdentifier(root='r2', extension_string='e2')]
+    st.update_from_sdc_location(probe)
+    for a, i in DETAIL.items():
+        if getattr(st.LocationDetail, a) != f'v{i}':
+            raise SystemExit(f'fail-closed: [{branch}] update_from_sdc_location wrote LocationDetail.{a} = '
+                             f'{getattr(st.LocationDetail, a)!r}, expected the {elements[i]} value v{i}')
+    if len(st.Identification) != 1:
+        raise SystemExit(f'fail-closed: [{branch}] update_from_sdc_location does not write exactly one Identification')
+    if ident_root not in (None, st.Identification[0].Root):
+        raise SystemExit(f'fail-closed: [{branch}] identifier root differs between initial conditions')
+    ident_root = st.Identification[0].Root
+    mdib.entities.by_node_type.side_effect = lambda nt, st=st: ([mock.MagicMock(states={'h': st})]
+                                                                if nt == 'LocationContextDescriptor' else [])
+    texts = scopesfactory.mk_scopes(mdib).text
+    if len(texts) != 2:
+        raise SystemExit(f'fail-closed: [{branch}] mk_scopes published {len(texts)} scopes for one location state, expected 2')
+    pub = texts[0]
+    pub_scheme, _, rest = pub.partition(':')
+    path, _, query = rest.partition('?')
+    want_q = '&'.join(f'{e}=v{i}' for i, e in enumerate(elements))
+    if query != want_q:
+        raise SystemExit(f'fail-closed: [{branch}] published query {query!r} is not {want_q!r} (keys/order differ from url_elements)')
+    if path != '/' + ident_root + '/' + '%2F'.join(f'v{i}' for i in range(len(elements))):
+        raise SystemExit(f'fail-closed: [{branch}] published path {path!r} has an unexpected shape')
 
 text = f'''(* GENERATED on every run by harness/impl/gen_location_consts.py from src/sdc11073/location.py,
    provider/scopesfactory.py and mdib/statecontainers.py -- do not edit. *)
